@@ -55,6 +55,10 @@ void vp_assume(_Bool c) { load(); if (!c) { fprintf(logf, "VP_ASSUME_FAIL\n"); f
 void vp_assert(_Bool c, const char *id) { load(); if (!c) { fprintf(logf, "VP_ASSERT_FAIL P: %s\n", id); fflush(logf); exit(10); } }
 void vp_witness(const char *id) { load(); fprintf(logf, "VP_WITNESS %s\n", id); fflush(logf); }
 void vp_cover(_Bool c, const char *id) { load(); if (c) fprintf(logf, "VP_COVER %s\n", id); }
+void vp_rank_register(const void *p, uint64_t rank) { (void)p; (void)rank; }
+uint64_t vp_native_rank(unsigned i) { return i; }
+uint64_t vp_range_lo(void) { return 0; }
+uint64_t vp_range_hi(void) { return ~0ULL; }
 void vp_observe(uint64_t v) { load(); fprintf(logf, "VP_OBS %llu\n", (unsigned long long)v); }
 /* used by generated C in native mode */
 void vp_native_fail(const char *kind, const char *msg) { load(); fprintf(logf, "VP_%s_FAIL %s\n", kind, msg); fflush(logf); exit(strcmp(kind, "UB") == 0 ? 12 : 10); }
